@@ -174,8 +174,17 @@ func (w *wal) read() (WALBatch, error) {
 	reader := bufio.NewReader(w.reader)
 	tupleLenBuf := make([]byte, 4)
 
+	// size of the complete records read so far
+	goodLen := int64(0)
+	// true if the log ends in the middle of a record (the process died while
+	// the record was being appended)
+	torn := false
+
 	for {
 		if n, err := io.ReadFull(reader, tupleLenBuf); err == io.EOF {
+			break
+		} else if err == io.ErrUnexpectedEOF {
+			torn = true
 			break
 		} else if err != nil {
 			return ret, err
@@ -189,7 +198,10 @@ func (w *wal) read() (WALBatch, error) {
 		}
 
 		tupleBuf := make([]byte, tupleLen)
-		if n, err := io.ReadFull(reader, tupleBuf); err != nil {
+		if n, err := io.ReadFull(reader, tupleBuf); err == io.EOF || err == io.ErrUnexpectedEOF {
+			torn = true
+			break
+		} else if err != nil {
 			return ret, err
 		} else if n != tupleLen {
 			panic("bytes read differs from expected buffer length")
@@ -200,6 +212,18 @@ func (w *wal) read() (WALBatch, error) {
 			return ret, err
 		}
 		ret = append(ret, w)
+		goodLen += int64(len(tupleLenBuf) + tupleLen)
+	}
+
+	if torn {
+		// the unfinished record was never acknowledged: it is the end of the
+		// log. cut it off so that the next record is appended right after the
+		// last complete one.
+		if t, ok := w.reader.(interface{ Truncate(size int64) error }); ok {
+			if err := t.Truncate(goodLen); err != nil {
+				return ret, err
+			}
+		}
 	}
 
 	return ret, nil
